@@ -67,8 +67,55 @@ func readConfigFile(config_file string) string {
 		log.Fatalf("Couldn't read config file %q: %s", config_file, err.Error())
 	}
 
-	return os.Expand(string(data), expandVars)
+	return expandConfig(string(data))
 
+}
+
+// expandConfig substitutes the documented variables, written as $NAME or ${NAME},
+// and leaves every other '$' sequence (such as $1 or ${1} in rewriter and aggregation
+// templates) exactly as it is
+func expandConfig(s string) string {
+	var buf strings.Builder
+	for i := 0; i < len(s); {
+		if s[i] == '$' {
+			if name, w := configVarRef(s[i+1:]); w > 0 {
+				buf.WriteString(expandVars(name))
+				i += 1 + w
+				continue
+			}
+		}
+		buf.WriteByte(s[i])
+		i++
+	}
+	return buf.String()
+}
+
+// configVarRef reports whether s (the text right after a '$') starts with a reference
+// to one of the documented variables, and if so its name and how many bytes it spans
+func configVarRef(s string) (string, int) {
+	if strings.HasPrefix(s, "{") {
+		end := strings.IndexByte(s, '}')
+		if end > 0 && isConfigVar(s[1:end]) {
+			return s[1:end], end + 1
+		}
+		return "", 0
+	}
+	j := 0
+	for j < len(s) && (s[j] == '_' || s[j] >= '0' && s[j] <= '9' || s[j] >= 'a' && s[j] <= 'z' || s[j] >= 'A' && s[j] <= 'Z') {
+		j++
+	}
+	if isConfigVar(s[:j]) {
+		return s[:j], j
+	}
+	return "", 0
+}
+
+func isConfigVar(name string) bool {
+	switch name {
+	case "HOST", "GRAFANA_NET_ADDR", "GRAFANA_NET_API_KEY", "GRAFANA_NET_USER_ID":
+		return true
+	}
+	return false
 }
 
 func expandVars(in string) (out string) {
